@@ -321,7 +321,7 @@ def validate_multi(ctx, seed, count, T=12, maxsp=5, nmax=6, mrts4=0, tau4=0, ri=
         with open(path, "w") as f:
             json.dump([{"id": r["id"], "tr": r["tr"], "call": r["call"]} for r in recs], f)
         consts = dict(TS=0, TE=T, MaxSp=1, N=2, MRTS4=mrts4, TAU4=tau4, RIFlag="TRUE" if ri else "FALSE",
-                      FnSet='{"none"}', IdxMode='"none"', IvCodes="{0}", ThrCodes="{12}", Sample=0, PoolMode='"all"',
+                      FnSet='{"none"}', IdxMode='"none"', IvCodes="{0}", ThrCodes="{12}", Sample=0, PoolMode='"all"', ErrorPaths="FALSE",
                       AllTrains="<- NoTrains")
         res = run_tlc("MultiTrace", consts, ["Expected"], init="TInit", nxt="TNext", workers=16, timeout=1800,
                       env={"TRACE_FILE": path})
